@@ -231,10 +231,11 @@ class AMF:
                 def oct_():
                     return s.R.choice([0,0,1,2,4,5,6,7,10,13,15,19,20,21,25,26,27,0x29,0x79,0x7b,0x82,0x86,0x88,0x8b,0x8b,255]) if s.R.randrange(2) else s.R.randrange(256)
                 ue.ip=bytes([s.R.choice([10,10,100,172,192,oct_()]),oct_(),oct_(),oct_()]); ue.teid=bytes(oct_() for _ in range(4)); ue.upf=bytes([s.R.choice([10,172,192,oct_()]),oct_(),oct_(),oct_()])
-                qos=bytes(s.R.randrange(256) for _ in range(s.R.choice([9,40,300])))
+                qos=bytes(s.R.randrange(256) for _ in range(s.R.choice(s.cfg.get('qos_lens',[9,40,300]))))
                 acc=bytes([0x2e,psi,sm[2],0xc2,0x11])+len(qos).to_bytes(2,'big')+qos+bytes([6,1,0,100,1,0,100])
                 if s.R.random()<0.5: acc+=bytes([0x59,0x32])
-                acc+=bytes([0x29,5,1])+ue.ip+s.R.choice([b'', b'', bytes([0x22,4,1,1,2,3]), bytes([0x25,9,8])+b'internet', bytes([0x22,4,1,1,2,3,0x25,9,8])+b'internet'])   # everything after the Session-AMBR is optional: the PDU address may be the last IE
+                s.n_sessions=getattr(s,'n_sessions',0)+1
+                acc+=bytes([0x29,5,1])+ue.ip+[b'', bytes([0x22,4,1,1,2,3,0x25,9,8])+b'internet', bytes([0x22,4,1,1,2,3]), bytes([0x25,9,8])+b'internet'][(s.n_sessions-1)%4]   # everything after the Session-AMBR is optional: the PDU address may be the last IE
                 dl=bytes([0x7e,0,0x68,1])+len(acc).to_bytes(2,'big')+acc+bytes([0x12,psi])
                 tt='ngapType.PDUSessionResourceSetupRequestTransferIEs'
                 qf={'QosFlowIdentifier':1,'QosFlowLevelQosParameters':{'QosCharacteristics':{'NonDynamic5QI':{'FiveQI':9}},'AllocationAndRetentionPriority':{'PriorityLevelARP':8,'PreEmptionCapability':0,'PreEmptionVulnerability':0}}}
